@@ -21,6 +21,9 @@ pub struct Case {
     /// measure the first retransmission instead of acknowledging the first burst at once
     pub timing: bool,
     pub seed: u64,
+    /// a download whose window (windowsize x blksize) exceeds the default socket buffer; the model client enlarges its receive buffer
+    #[serde(default)]
+    pub big_burst: bool,
 }
 
 struct Expect {
@@ -93,6 +96,14 @@ fn recv_dec(cl: &Client, wait: Duration) -> Option<(RDec, Vec<u8>, SocketAddr)> 
 fn converse(srv: &mut Server, c: &Case, file: &[u8], recv_dir: &Path, out: &mut Out) -> Result<(), (String, String)> {
     let ex = expectations(c);
     let cl = Client::new();
+    if c.big_burst {
+        let eff = cl.force_rcvbuf(16 << 20);
+        if eff < (8 << 20) {
+            out.classes.push("big-burst-skipped-no-cap-net-admin");
+            return Ok(());
+        }
+        out.classes.push("big-burst");
+    }
     let o: Vec<(Vec<u8>, Vec<u8>)> = c.opts.iter().map(|(n, v)| (n.as_bytes().to_vec(), v.as_bytes().to_vec())).collect();
     let name = if c.write { "up.bin" } else { "f.bin" };
     let req = refcodec::encode_request_raw(c.write, name.as_bytes(), b"octet", &o);
@@ -381,14 +392,16 @@ fn value_for(o: ROpt) -> BoxedStrategy<u64> {
         ROpt::Blksize => prop_oneof![
             6 => prop::sample::select(vec![8u64, 9, 16, 511, 512, 513, 1024, 1428, 8192, 65463, 65464]),
             3 => 8u64..=65464,
-            2 => prop::sample::select(vec![0u64, 1, 7, 65465, 65535, 65536, 1 << 32]),
+            2 => prop::sample::select(vec![0u64, 1, 7, 65465, 65535, 65536, 65536 + 512, 131072 + 1024, 1 << 32, (1 << 32) + 512, (1 << 32) + 1428, u64::MAX - 3]),
+            1 => 65465u64..200_000,
         ]
         .boxed(),
         ROpt::Windowsize => prop_oneof![
             6 => 1u64..=8,
             2 => prop::sample::select(vec![16u64, 64, 1000, 65534, 65535]),
             1 => 1u64..=65535,
-            2 => prop::sample::select(vec![0u64, 65536, 1 << 20]),
+            2 => prop::sample::select(vec![0u64, 65536, 65537, 65540, 70000, 131071, 131073, 1 << 20, (1 << 20) + 4, 1 << 32, (1 << 32) + 1, (1 << 32) + 8, u64::MAX]),
+            1 => 65536u64..300_000,
         ]
         .boxed(),
         ROpt::Timeout => prop_oneof![
@@ -440,16 +453,38 @@ pub fn strategy() -> BoxedStrategy<Case> {
                 opts: list,
                 timing: timing && !write,
                 seed,
+                big_burst: false,
+            }
+        })
+        .boxed()
+}
+
+/// downloads whose window is larger than the default UDP socket buffer (212992 bytes)
+pub fn big_strategy() -> BoxedStrategy<Case> {
+    (any::<bool>(), prop::sample::select(vec![(1024u64, 256u64), (1428, 200), (512, 500), (8192, 40), (65464, 5), (4096, 100), (1024, 1000), (512, 65535)]), 0usize..3, any::<u64>())
+        .prop_map(|(single, (blk, ws), extra, seed)| {
+            // more full blocks than fit into 212992 bytes, at most ~1.5 MB per burst
+            let blocks_in_buf = (212_992 / blk) as usize;
+            let blocks = (blocks_in_buf + 3 + extra * 7).min(ws as usize + 2 + extra);
+            Case {
+                single,
+                write: false,
+                file_len: blocks * blk as usize + 17,
+                opts: vec![("blksize".into(), blk.to_string()), ("windowsize".into(), ws.to_string())],
+                timing: false,
+                seed,
+                big_burst: true,
             }
         })
         .boxed()
 }
 
 pub fn run(ctx: &Ctx) {
-    ctx.set_rule("per case a fresh real tftpd (single/multi port) and one request built from a generated subset and order of {blksize,timeout,tsize,windowsize} (names in lower/upper/mixed case, unknown options interleaved, values at and around every boundary) for an RRQ of a file of 0..3W+1 blocks or a WRQ. Oracle: OACK iff >=1 recognised option and none unhonourable; OACK lists only requested options with blksize/timeout/windowsize <= requested and in range, tsize = true file size (RRQ) / echo (WRQ); unhonourable values (timeout 0, windowsize 0 or >65535, blksize outside 8..65464) are never acknowledged (silence, ERROR or omission accepted); without OACK: DATA 1 / ACK 0 and 512-byte lock-step. The model client then measures the transfer: every non-final DATA has exactly the acknowledged blksize, every burst has exactly min(W, blocks left) consecutive blocks and nothing beyond, an upload is acknowledged after exactly W blocks and not before, content is byte-identical, and in timing cases (acknowledged timeout 1-2 s) the first retransmission comes no earlier than the acknowledged timeout. Non-trivial = >=2 recognised options or a boundary value; distinct = distinct cases. Failures are re-run once in isolation before being reported.");
+    ctx.set_rule("per case a fresh real tftpd (single/multi port) and one request built from a generated subset and order of {blksize,timeout,tsize,windowsize} (names in lower/upper/mixed case, unknown options interleaved, values at and around every boundary) for an RRQ of a file of 0..3W+1 blocks or a WRQ. Oracle: OACK iff >=1 recognised option and none unhonourable; OACK lists only requested options with blksize/timeout/windowsize <= requested and in range, tsize = true file size (RRQ) / echo (WRQ); unhonourable values (timeout 0, windowsize 0 or >65535, blksize outside 8..65464) are never acknowledged (silence, ERROR or omission accepted); without OACK: DATA 1 / ACK 0 and 512-byte lock-step. The model client then measures the transfer: every non-final DATA has exactly the acknowledged blksize, every burst has exactly min(W, blocks left) consecutive blocks and nothing beyond, an upload is acknowledged after exactly W blocks and not before, content is byte-identical, and in timing cases (acknowledged timeout 1-2 s) the first retransmission comes no earlier than the acknowledged timeout. A second part downloads with windows larger than the default socket buffer (windowsize x blksize up to ~1.5 MB; the model client enlarges its receive buffer with SO_RCVBUFFORCE) so that 'exactly W blocks per burst' is also measured for large windows. Non-trivial = >=2 recognised options or a boundary value; distinct = distinct cases. Failures are re-run once in isolation before being reported.");
     ctx.assume("burst size min(W, blocks) x (blksize+100) is kept below 100 KB so that loopback never drops datagrams; timeouts > 255 s are not generated; early-retransmission tolerance 130 ms");
     let dirs = DirPool::new(ctx, "c09");
-    explore_n(ctx, "random", ctx.tier.pick(6_000, 150_000), shards(), 24, strategy, |c: &Case, o| dirs.with(|d| judge(d, c, o)));
+    explore_n(ctx, "random", ctx.tier.pick(4_000, 150_000), shards(), 24, strategy, |c: &Case, o| dirs.with(|d| judge(d, c, o)));
+    explore_n(ctx, "big-window-download", ctx.tier.pick(48, 1_500), shards(), 12, big_strategy, |c: &Case, o| dirs.with(|d| judge(d, c, o)));
 }
 
 pub fn replay(ctx: &Ctx, part: &str, case: &Value) -> bool {
